@@ -48,3 +48,199 @@ Theorem C13_warning_iff_none :
               /\ (r <> None -> k = KServings /\ w = false /\ r = value_as_servings v).
 Proof. intros. apply warning_iff_none. reflexivity. Qed.
 Print Assumptions C13_warning_iff_none.
+
+(* ====================================================================== documented forms.
+   The specification side is Model/StdMetaDoc.v (module [Doc]): abstract forms, their
+   documented spellings ([Doc.print_*]) and their meaning, written without reference to the
+   code's structure.  Proofs live in Proofs/StdMetaDocProofs.v. *)
+From Coq Require Import String.
+From CL Require Import Model.StdMetaDoc Proofs.StdMetaDocProofs.
+
+(* ---------------------------------------------------------------------- 1. numerals *)
+
+(* the canonical decimal numeral of n reads back as n exactly when n fits a u32 *)
+Theorem C13_u32_roundtrip :
+  forall n, n < two32 -> parse_u32 (Doc.print_nat n) = Some n.
+Proof. exact parse_u32_print. Qed.
+Print Assumptions C13_u32_roundtrip.
+
+Theorem C13_u32_out_of_range :
+  forall n, two32 <= n -> parse_u32 (Doc.print_nat n) = None.
+Proof. exact parse_u32_print_big. Qed.
+Print Assumptions C13_u32_out_of_range.
+
+Example print_nat_ex :
+  Doc.print_nat 4294967295 = Doc.lit "4294967295"%string /\ Doc.print_nat 0 = Doc.lit "0"%string
+  /\ Doc.print_nat 90 = Doc.lit "90"%string.
+Proof. vm_compute. auto. Qed.
+
+(* ---------------------------------------------------------------------- 2. compact form *)
+
+(* `1h`, `30m`, `1h30m` read as 60h+m, for every float reader, converter and build mode *)
+Theorem C13_hm_documented :
+  forall pf dbg cv x,
+    Doc.hm_minutes x < two32 ->
+    parse_time pf (cfg_new dbg) cv (Doc.print_hm x) = Done (Some (Doc.hm_minutes x)).
+Proof. intros. apply parse_time_hm; [reflexivity|assumption]. Qed.
+Print Assumptions C13_hm_documented.
+
+(* beyond the u32 range the compact reader declines (no wrapped number, no panic) *)
+Theorem C13_hm_out_of_range :
+  forall dbg x,
+    two32 <= Doc.hm_minutes x ->
+    parse_common (cfg_new dbg) (Doc.print_hm x) = Done None.
+Proof.
+  intros dbg x H. rewrite parse_common_hm by reflexivity.
+  apply N.ltb_ge in H. rewrite H. reflexivity.
+Qed.
+Print Assumptions C13_hm_out_of_range.
+
+Example hm_ex :
+  Doc.print_hm (Doc.HandM 1 30) = Doc.lit "1h30m"%string /\ Doc.hm_minutes (Doc.HandM 1 30) = 90
+  /\ Doc.print_hm (Doc.H 2) = Doc.lit "2h"%string /\ Doc.print_hm (Doc.M 45) = Doc.lit "45m"%string
+  /\ Doc.hm_minutes (Doc.HandM 71582788 15) < two32
+  /\ two32 <= Doc.hm_minutes (Doc.HandM 71582788 16)
+  /\ parse_time parse_f64 (cfg_new true) [] (Doc.print_hm (Doc.HandM 71582788 16)) = Done None
+  /\ parse_time parse_f64 (cfg_new false) [] (Doc.print_hm (Doc.H 99999999)) = Done None.
+Proof. vm_compute. repeat split; congruence. Qed.
+
+(* ---------------------------------------------------------------------- 3. a number of minutes *)
+
+(* a plain natural number reads as that many minutes, provided the float reader reads the
+   numeral exactly ([pf_reads]: an oracle hypothesis on str::parse::<f64>, true of every
+   integer below 2^53 in IEEE arithmetic) *)
+Theorem C13_minutes_number_documented :
+  forall pf dbg cv n,
+    n < two32 ->
+    pf_reads pf (Doc.print_nat n) (inject_Z (Z.of_N n)) ->
+    parse_time pf (cfg_new dbg) cv (Doc.print_nat n) = Done (Some n).
+Proof. intros. apply parse_time_minutes; [reflexivity|assumption|assumption]. Qed.
+Print Assumptions C13_minutes_number_documented.
+
+(* the hypothesis holds of the model's own reader (the one the correspondence runs) *)
+Theorem C13_model_reader_exact :
+  forall n, n < two64 -> pf_reads parse_f64 (Doc.print_nat n) (inject_Z (Z.of_N n)).
+Proof. exact parse_f64_nat. Qed.
+Print Assumptions C13_model_reader_exact.
+
+Theorem C13_minutes_number_model :
+  forall dbg cv n,
+    n < two32 -> parse_time parse_f64 (cfg_new dbg) cv (Doc.print_nat n) = Done (Some n).
+Proof.
+  intros dbg cv n H. apply parse_time_minutes; [reflexivity|assumption|].
+  apply parse_f64_nat. unfold two32, two64 in *. lia.
+Qed.
+Print Assumptions C13_minutes_number_model.
+
+Example minutes_ex :
+  parse_time parse_f64 (cfg_new true) [] (Doc.lit "90"%string) = Done (Some 90)
+  /\ parse_time parse_f64 (cfg_new true) [] (Doc.lit "4294967296"%string) = Done None.
+Proof. vm_compute. auto. Qed.
+
+(* ---------------------------------------------------------------------- 5. accepted => documented *)
+
+(* whatever string the compact reader accepts is a compact form - up to a `+` and leading
+   zeros in the two numbers, [Doc.numeral] - and the number returned is exactly 60h+m, below
+   2^32: never a wrapped or otherwise wrong number, for every string *)
+Theorem C13_no_wrong_number_hm :
+  forall dbg s n,
+    parse_common (cfg_new dbg) s = Done (Some n) ->
+    exists x, Doc.hm_spelled x s /\ n = Doc.hm_minutes x /\ n < two32.
+Proof. intros dbg s n. apply parse_common_accepts. reflexivity. Qed.
+Print Assumptions C13_no_wrong_number_hm.
+
+Example no_wrong_number_ex :
+  parse_common (cfg_new true) (Doc.lit "+01h05m"%string) = Done (Some 65)
+  /\ parse_common (cfg_new true) (Doc.lit "1h 5m"%string) = Done None.
+Proof. vm_compute. auto. Qed.
+
+(* ---------------------------------------------------------------------- 4. number-unit pairs *)
+
+(* `1 hour 30 min`, `1hour 30min`, `90 secs`, `1.5 h`: decimal numbers and unit keys, blanks
+   from a tape, read as the rounded total - for every float reader [pf] that reads the
+   numerals ([pf_reads]) and every converter [cv] under which each key means [per key]
+   minutes ([unit_means]: stated on the code's own [to_minutes]; discharged below for the
+   hard-coded table and for a converter's Time units).  [pair_ok] also asks that no key looks
+   like `h30m` and that `h`/`m` mean 60/1 minutes, because `2h` and `90m` are read by the
+   compact reader first. *)
+Theorem C13_units_documented :
+  forall pf dbg cv per ps t n,
+    ps <> [] -> Forall (pair_ok pf cv per) ps -> Doc.tape_ok t = true ->
+    minutes_result (Doc.minutes per (Doc.Pairs ps)) = Some n ->
+    parse_time pf (cfg_new dbg) cv (Doc.print_form (Doc.Pairs ps) t) = Done (Some n).
+Proof. intros. apply (parse_time_pairs pf (cfg_new dbg) cv per); (reflexivity || assumption). Qed.
+Print Assumptions C13_units_documented.
+
+(* out of the u32 range the unit reader declines: no saturated number *)
+Theorem C13_units_out_of_range :
+  forall pf dbg cv per ps t,
+    Forall (pair_ok pf cv per) ps -> Doc.tape_ok t = true ->
+    minutes_result (Doc.minutes per (Doc.Pairs ps)) = None ->
+    parse_with_units pf (cfg_new dbg) cv (Doc.print_form (Doc.Pairs ps) t) = None.
+Proof.
+  intros pf dbg cv per ps t F T V.
+  rewrite <- V. apply (parse_with_units_pairs pf (cfg_new dbg) cv per); (reflexivity || assumption).
+Qed.
+Print Assumptions C13_units_out_of_range.
+
+(* the empty converter: every key of the hard-coded table, with the documented factors *)
+Theorem C13_units_documented_hard :
+  forall pf dbg ps t n,
+    ps <> [] -> Doc.tape_ok t = true ->
+    Forall (fun p => Doc.num_ok (fst p) = true /\ Doc.per_default (snd p) <> None
+                     /\ pf_reads pf (Doc.print_num (fst p)) (Doc.num_value (fst p))) ps ->
+    minutes_result (Doc.minutes Doc.per_hard (Doc.Pairs ps)) = Some n ->
+    parse_time pf (cfg_new dbg) [] (Doc.print_form (Doc.Pairs ps) t) = Done (Some n).
+Proof.
+  intros pf dbg ps t n NE T F V.
+  apply (parse_time_pairs pf (cfg_new dbg) [] Doc.per_hard); try (reflexivity || assumption).
+  eapply Forall_impl; [|exact F]. intros p (A & B & C). apply pair_ok_hard; assumption.
+Qed.
+Print Assumptions C13_units_documented_hard.
+
+(* a non-empty converter: a key of a Time unit of ratio r means r / r0 minutes, r0 the ratio of
+   the unit found under `min`, `minute`, `minutes` or `m` (no offsets) *)
+Theorem C13_units_converter :
+  forall cv k mi mu ui uu,
+    cv <> [] ->
+    minute_unit cv = Some (mi, mu) -> u_time mu = true ->
+    find_unit cv k = Some (ui, uu) -> u_time uu = true ->
+    (u_diff uu == 0)%Q -> (u_diff mu == 0)%Q -> ~ (u_ratio mu == 0)%Q ->
+    unit_means cv k (u_ratio uu / u_ratio mu).
+Proof. exact unit_means_dynamic. Qed.
+Print Assumptions C13_units_converter.
+
+(* all documented duration forms at once (the statement planned as C13_minutes_documented) *)
+Theorem C13_minutes_documented :
+  forall pf dbg cv per f t n,
+    form_ok pf cv per f -> Doc.tape_ok t = true ->
+    minutes_result (Doc.minutes per f) = Some n ->
+    parse_time pf (cfg_new dbg) cv (Doc.print_form f t) = Done (Some n).
+Proof. intros. apply (parse_time_form pf (cfg_new dbg) cv per); (reflexivity || assumption). Qed.
+Print Assumptions C13_minutes_documented.
+
+Definition ex_pairs : list (Doc.num * str) :=
+  [((1, []), Doc.lit "hour"%string); ((30, [5]), Doc.lit "min"%string); ((90, []), Doc.lit "secs"%string)].
+Definition ex_tape : Doc.tape := [([32], [32; 32]); ([], [9])].
+
+Example units_ex :
+  Doc.print_form (Doc.Pairs ex_pairs) ex_tape = Doc.lit "1 hour  30.5min	90 secs"%string
+  /\ Doc.tape_ok ex_tape = true
+  /\ minutes_result (Doc.minutes Doc.per_hard (Doc.Pairs ex_pairs)) = Some 92
+  /\ parse_time parse_f64 (cfg_new true) [] (Doc.print_form (Doc.Pairs ex_pairs) ex_tape) = Done (Some 92)
+  /\ forallb (fun p => Doc.num_ok (fst p)) ex_pairs = true
+  /\ forallb (fun p => match Doc.per_default (snd p) with Some _ => true | None => false end) ex_pairs = true.
+Proof. vm_compute. repeat split. Qed.
+
+Example units_ex_reader :
+  Forall (fun p => pf_reads parse_f64 (Doc.print_num (fst p)) (Doc.num_value (fst p))) ex_pairs.
+Proof.
+  repeat constructor; (eexists; split; [vm_compute; reflexivity|vm_compute; reflexivity]).
+Qed.
+
+Example units_ex_single :
+  parse_time parse_f64 (cfg_new true) [] (Doc.print_form (Doc.Pairs [((2, []), Doc.lit "h"%string)]) [([], [32])])
+  = Done (Some 120)
+  /\ minutes_result (Doc.minutes Doc.per_hard (Doc.Pairs [((2, []), Doc.lit "h"%string)])) = Some 120
+  /\ minutes_result (Doc.minutes Doc.per_hard (Doc.Pairs [((99999999999, []), Doc.lit "h"%string)])) = None.
+Proof. vm_compute. repeat split. Qed.
